@@ -125,6 +125,7 @@ static void proj(FILE *f, const vrt_rec_t *r)
 		else if (!strcmp(r->name, "sema4_wait_ret")) fprintf(f, "{\"e\":\"WaitRet\",\"t\":%d}\n", r->tid);
 		else if (!strcmp(r->name, "sema4_timedwait_ret"))
 			fprintf(f, "{\"e\":\"TimedRet\",\"t\":%d,\"timedout\":%ld}\n", r->tid, r->a);
+		else if (!strcmp(r->name, "dispose")) { /* end of the object's life (_dispatch_dispose probe): C17's business */ }
 		else fprintf(f, "{\"e\":\"Unknown\",\"t\":%d,\"probe\":\"%s\"}\n", r->tid, r->name);
 		break;
 	}
